@@ -378,6 +378,10 @@ def real_queries():
             "mappart_bcast": lambda d: d.map_partitions(operator.add, d.sum()),
             "head_chain": lambda d: (d + 1).head(3, npartitions=-1, compute=False) + 1,
             "tail_chain": lambda d: (d + 1).tail(2, compute=False),
+            "shuffle_tail": lambda d: d.shuffle("b", shuffle_method="tasks").tail(2, compute=False),
+            "shuffle_head": lambda d: d.shuffle("b", shuffle_method="tasks").head(2, compute=False),
+            "shuffle_tail_chain": lambda d: (d.shuffle("b", shuffle_method="tasks") + 1).tail(2, compute=False) * 2,
+            "setindex_tail": lambda d: d.set_index("a").tail(2, compute=False),
             "where": lambda d: d.a.where(d.b > 1, -1) + d.a,
             "len_like": lambda d: (d + 1).a.sum() + (d + 1).b.sum(),
             "fillna_clip": lambda d: d.fillna(0).clip(lower=1, upper=5).astype({"a": "float64"}),
@@ -726,10 +730,21 @@ def run_program_case(case):
     return compare_fuse(r.expr, twice=case.get("twice", False))
 
 
+def _unoptimized_runs(expr):
+    """does the merely lowered (never simplified, never fused) plan execute?"""
+    def go():
+        e = expr.lower_completely()
+        return list(dask.get(dict(e.__dask_graph__()), e.__dask_keys__()))
+
+    return e2e.run_or_err(go)[0] == "ok"
+
+
 def compare_fuse(expr, twice=False):
     a = e2e.run_or_err(lambda: expr.optimize(fuse=False))
     b = e2e.run_or_err(lambda: expr.optimize(fuse=True))
     if a[0] == "err" and b[0] == "err":
+        if _unoptimized_runs(expr):
+            return f"optimize raises with and without fusion but the unoptimized plan executes: {b[1:]}"
         return None
     if a[0] == "err" or b[0] == "err":
         return f"optimize raised only for fuse={'False' if a[0] == 'err' else 'True'}: {(a if a[0] == 'err' else b)[1:]}"
@@ -752,6 +767,8 @@ def compare_fuse(expr, twice=False):
     ra = e2e.run_or_err(lambda: list(dask.get(dict(ea.__dask_graph__()), ea.__dask_keys__())))
     rb = e2e.run_or_err(lambda: list(dask.get(dict(eb.__dask_graph__()), eb.__dask_keys__())))
     if ra[0] == "err" and rb[0] == "err":
+        if _unoptimized_runs(expr):
+            return f"neither optimized plan can be executed but the unoptimized plan can: {rb[1:]}"
         return None
     if ra[0] == "err" or rb[0] == "err":
         return f"graph execution raised only {'unfused' if ra[0] == 'err' else 'fused'}: {(ra if ra[0] == 'err' else rb)[1:]}"
